@@ -185,6 +185,11 @@ Select(base, key) ==
             IF key.i >= 0 /\ key.i < Len(base.es) THEN base.es[key.i + 1] ELSE miss
        [] OTHER -> miss
 
+(* a pattern without regular-expression metacharacters matches as a substring *)
+PlainChars == {"a", "b", "c", "d", "e", "f", "g", "x", "y", "z", "0", "1", "2", "3", "4", "5", "6", "7", "8", "9", " ",
+               "=", ",", "-", "_", "@"}
+PlainPattern(cs) == \A j \in 1..Len(cs) : cs[j] \in PlainChars
+
 (* ---- format templates ---------------------------------------------------------- *)
 (* list form: `@` is a placeholder, `\` escapes the next character             *)
 RECURSIVE TplParts(_, _, _)
@@ -433,7 +438,13 @@ EvalE(e, rho, selfs) ==
                 IN IF AnyBad(<< v, ty >>) THEN Worst(<< v, ty >>)
                    ELSE IF ty.t # "str" THEN (IF ty.t = "null" THEN BoolV(FALSE) ELSE Err)
                    ELSE BoolV(ty.s = TypeChars(v))
-           [] e.op \in {"re", "nre"} -> Unm
+           [] e.op \in {"re", "nre"} ->     \* regular expression match: literal patterns are the decidable fragment
+                LET subj == EvalE(e.l, rho, selfs)
+                    pat  == EvalE(e.r, rho, selfs)
+                IN IF AnyBad(<< subj, pat >>) THEN Worst(<< subj, pat >>)
+                   ELSE IF subj.t # "str" \/ pat.t # "str" THEN Err
+                   ELSE IF ~PlainPattern(pat.s) THEN Unm
+                   ELSE BoolV((e.op = "re") = IsSubstr(pat.s, subj.s))
            [] OTHER ->
                 LET l == EvalE(e.l, rho, selfs)
                     r == EvalE(e.r, rho, selfs)
